@@ -2,76 +2,84 @@ import Ecal.Lemmas.LexerInv
 namespace Ecal.Lex
 open Ecal.Lex.Spec
 
-/-- tracked loop of the string lexer: the bookkeeping pair stays true; on exit the pending rune
-    is the end token -/
-theorem value_loop (ae : Bool) (endTok : Option Nat) (T : List Tok) (fuel : Nat) :
-    ∀ (l : L) (r : Option Nat) (esc : Bool) (a b p : Nat) (l' : L) (a' b' : Nat),
-    Pend l r p → Tr l.inp T p a b → lexValueLoop ae endTok fuel l r esc a b = some (l', a', b') →
-    l'.core = l.core ∧ ∃ p', Pend l' endTok p' ∧ Tr l.inp T p' a' b' := by
-  induction fuel with
-  | zero => intro l r esc a b p l' a' b' _ _ h; simp [lexValueLoop] at h
-  | succ n ih =>
-    intro l r esc a b p l' a' b' hp htr h
-    simp only [lexValueLoop] at h
-    obtain ⟨f1, f2, f3, f4⟩ := hp.facts
-    split at h
-    · split at h
-      · simp at h
-      · obtain ⟨np, nc⟩ := next_spec l f2
-        obtain ⟨c1, _, _, _, _⟩ := core_fields nc
-        have := ih _ _ _ _ _ l.pos l' a' b' np (by rw [c1]; exact htr.step f1 f3 f4) h
-        rw [c1] at this
-        exact ⟨this.1.trans nc, this.2⟩
-    · rename_i hcond
-      simp only [Option.some.injEq, Prod.mk.injEq] at h
-      obtain ⟨rfl, rfl, rfl⟩ := h
-      have hr : r = endTok := by
-        cases ae <;> simp at hcond
-        · exact hcond
-        · exact hcond.1
-      subst hr
-      exact ⟨rfl, p, hp, htr⟩
+theorem block_inv (l la : L) (h : Inv l) (hb : Blk l la) (hpk : la.peek 1 = some 42) :
+    AllOK (lexCommentBlock la).1 ∧ ((lexCommentBlock la).2 = Next.token → Inv (lexCommentBlock la).1) := by
+  obtain ⟨b2, _⟩ := next_blk hb.le hpk (by decide)
+  have hlb := hb.trans b2
+  obtain ⟨a1, a2, a3, a4, a5⟩ := core_fields hlb.core
+  obtain ⟨np, nc⟩ := next_spec { (la.next).1 with start := (la.next).1.pos } hlb.le
+  obtain ⟨n1, n2, n3, n4, n5⟩ := core_fields nc
+  simp only [] at n1 n2 n3 n4 n5
+  have htr0 : Tr l.inp l.toks.toList (la.next).1.pos l.line l.lastnl := h.tr.noNl hlb.ge hlb.nonl
+  simp only [lexCommentBlock]
+  generalize hres : blockLoop _ _ _ _ _ = res
+  cases res with
+  | none =>
+    simp only []
+    refine ⟨?_, fun h' => by simp at h'⟩
+    apply emit_allOK
+    · intro t ht; simp only [] at ht ⊢; rw [n5, a5] at ht; rw [n1, n5, a1, a5]; exact h.ok t ht
+    · right; simp only []; rw [n1, n2, n3, n4, n5, a1, a2, a3, a5]; exact htr0
+  | some x =>
+    obtain ⟨l', a', b'⟩ := x
+    obtain ⟨lc, hpk', p', hp', htr'⟩ := block_loop l.toks.toList _ _ _ _ _ _ _ _ _ np
+      (by rw [n1, n2, n3, a1, a2, a3]; exact htr0) hres
+    obtain ⟨c1, c2, c3, c4, c5⟩ := core_fields lc
+    rw [n1, a1] at htr'
+    obtain ⟨g1, g2, g3, g4⟩ := hp'.facts
+    have hpos : Tr l.inp l.toks.toList l'.pos a' b' := by
+      refine htr'.noNl g1 ?_
+      have := g4 (by decide)
+      rwa [c1, n1, a1] at this
+    have hok' : AllOK l' := by
+      intro t ht; rw [c5, n5, a5] at ht; rw [c1, c5, n1, n5, a1, a5]; exact h.ok t ht
+    have hst' : Tr l'.inp l'.toks.toList l'.start l'.line l'.lastnl := by
+      rw [c1, c2, c3, c4, c5, n1, n2, n3, n4, n5, a1, a2, a3, a5]; exact htr0
+    simp only []
+    -- the state after the emit, then the final `/`
+    have hem := emit_allOK l' tPRECOMMENT (l'.slice l'.start (l'.pos - 1)) false false hok' (Or.inr hst')
+    have hpe : (l'.emit tPRECOMMENT (l'.slice l'.start (l'.pos - 1)) false false).peek 1 = some 47 := by
+      rw [← hpk']; exact peek_congr rfl rfl 1
+    obtain ⟨b3, _⟩ := next_blk (l := l'.emit tPRECOMMENT (l'.slice l'.start (l'.pos - 1)) false false)
+      (by simpa [L.emit] using g2) hpe (by decide)
+    obtain ⟨d1, d2, d3, d4, d5⟩ := core_fields b3.core
+    have hI : l'.inp = l.inp := c1.trans (n1.trans a1)
+    have hT : l'.toks = l.toks := c5.trans (n5.trans a5)
+    have hn : NoNl l'.inp l'.pos (l'.emit tPRECOMMENT (l'.slice l'.start (l'.pos - 1)) false false).next.1.pos := b3.nonl
+    have hge : l'.pos ≤ (l'.emit tPRECOMMENT (l'.slice l'.start (l'.pos - 1)) false false).next.1.pos := b3.ge
+    rw [hI] at hn
+    have hfin : Inv { (l'.emit tPRECOMMENT (l'.slice l'.start (l'.pos - 1)) false false).next.1 with
+        line := a', lastnl := b' } := by
+      refine ⟨b3.le, ?_, ?_⟩
+      · show Tr (l'.emit tPRECOMMENT (l'.slice l'.start (l'.pos - 1)) false false).next.1.inp
+          (l'.emit tPRECOMMENT (l'.slice l'.start (l'.pos - 1)) false false).next.1.toks.toList _ a' b'
+        rw [d1, d5]
+        show Tr l'.inp (l'.toks.push _).toList _ a' b'
+        rw [Array.toList_push, hI, hT]
+        exact (hpos.mono _).noNl hge hn
+      · intro t ht
+        change t ∈ (l'.emit tPRECOMMENT (l'.slice l'.start (l'.pos - 1)) false false).next.1.toks.toList at ht
+        show TokOK (l'.emit tPRECOMMENT (l'.slice l'.start (l'.pos - 1)) false false).next.1.inp
+          (l'.emit tPRECOMMENT (l'.slice l'.start (l'.pos - 1)) false false).next.1.toks.toList t
+        rw [d5] at ht
+        rw [d1, d5]
+        exact hem t ht
+    exact ⟨hfin.ok, fun _ => hfin⟩
 
-theorem block_loop (T : List Tok) (fuel : Nat) :
-    ∀ (l : L) (r : Option Nat) (a b p : Nat) (l' : L) (a' b' : Nat),
-    Pend l r p → Tr l.inp T p a b → blockLoop fuel l r a b = some (l', a', b') →
-    l'.core = l.core ∧ l'.peek 1 = some 47 ∧ ∃ p', Pend l' (some 42) p' ∧ Tr l.inp T p' a' b' := by
-  induction fuel with
-  | zero => intro l r a b p l' a' b' _ _ h; simp [blockLoop] at h
-  | succ n ih =>
-    intro l r a b p l' a' b' hp htr h
-    simp only [blockLoop] at h
-    obtain ⟨f1, f2, f3, f4⟩ := hp.facts
-    split at h
-    · split at h
-      · simp at h
-      · obtain ⟨np, nc⟩ := next_spec l f2
-        obtain ⟨c1, _, _, _, _⟩ := core_fields nc
-        have := ih _ _ _ _ l.pos l' a' b' np (by rw [c1]; exact htr.step f1 f3 f4) h
-        rw [c1] at this
-        exact ⟨this.1.trans nc, this.2⟩
-    · rename_i hcond
-      simp only [Option.some.injEq, Prod.mk.injEq] at h
-      obtain ⟨rfl, rfl, rfl⟩ := h
-      simp only [Bool.or_eq_true, bne_iff_ne, ne_eq, not_or, Decidable.not_not] at hcond
-      obtain ⟨hr, hpk⟩ := hcond
-      subst hr
-      exact ⟨rfl, hpk, p, hp, htr⟩
-
-theorem hash_loop (fuel : Nat) : ∀ (l0 l : L) (r : Option Nat), Scan l0 l r →
-    let res := hashLoop fuel l r
-    res.1.core = l0.core ∧ ∃ p, Pend res.1 res.2 p ∧ l0.pos ≤ p ∧ NoNl l0.inp l0.pos p := by
-  induction fuel with
-  | zero => intro l0 l r h; simpa [hashLoop] using ⟨h.core, h.ex⟩
-  | succ n ih =>
-    intro l0 l r h
-    simp only [hashLoop]
-    split
-    · rename_i hc
-      simp only [Bool.and_eq_true, bne_iff_ne, ne_eq] at hc
-      cases r with
-      | none => exact absurd rfl hc.2
-      | some c => exact ih _ _ _ (h.next (by intro h'; apply hc.1; rw [h']))
-    · exact ⟨h.core, h.ex⟩
+theorem lexComment_inv (l : L) (h : Inv l)
+    (hcase : l.peek 1 = some 35 ∨ (l.peek 1 = some 47 ∧ l.peek 2 = some 42)) :
+    AllOK (lexComment l).1 ∧ ((lexComment l).2 = Next.token → Inv (lexComment l).1) := by
+  obtain ⟨np, nc⟩ := next_spec l h.le
+  simp only [lexComment]
+  split
+  · rename_i h35
+    rw [h35] at np
+    exact hash_inv l _ h np nc
+  · rename_i h35
+    rw [← peek1_eq] at h35
+    rcases hcase with hc | ⟨h47, h42⟩
+    · exact absurd hc h35
+    · obtain ⟨b1, b1p⟩ := next_blk h.le h47 (by decide)
+      exact block_inv l _ h b1 (peek2_shift h42 (by decide) (core_fields b1.core).1 (b1p (by decide)))
 
 end Ecal.Lex
